@@ -18,8 +18,8 @@ Events(n) == {[src |-> "tracked", items |-> <<Item(a, 10 * n + 1)>>] : a \in Sha
                                     a \in Shapes \ {<<"F", FALSE, 0, TRUE, TRUE>>}, b \in Shapes \ {<<"F", FALSE, 0, TRUE, TRUE>>, <<"F", TRUE, 0, FALSE, FALSE>>}}
                    ELSE {})
 
-Init == /\ \E what \in {"best", "last"} : \E flip \in BOOLEAN : \E tolnone \in BOOLEAN :
-           par = [what |-> what, flip |-> flip, tolnone |-> tolnone]
+Init == /\ \E what \in {"best", "last"} : \E flip \in BOOLEAN : \E tol \in {"none", "zero", "pos"} :
+           par = [what |-> what, flip |-> flip, tolnone |-> (tol = "none"), tol |-> tol]
         /\ hist = <<>> /\ kept = [id |-> 0, obj |-> 0]
 \* with tolerance None every result counts as feasible
 Eff(ev) == IF par.tolnone THEN [ev EXCEPT !.items = [j \in 1..Len(ev.items) |-> [ev.items[j] EXCEPT !.feas = TRUE]]] ELSE ev
